@@ -46,9 +46,11 @@ theorem intStr_natCast (t : Nat) : intStr (t : Int) = natDigits t := by
   have : ¬ ((t : Int) < 0) := by omega
   simp [this]
 
-theorem parseIntStr_natDigits (t : Nat) : parseIntStr (natDigits t) = .ok (t : Int) := by
+theorem parseIntAscii_intStr (i : Int) : parseIntAscii (intStr i) = .ok i := parseIntBytes_intStr i
+
+theorem parseIntAscii_natDigits (t : Nat) : parseIntAscii (natDigits t) = .ok (t : Int) := by
   rw [← intStr_natCast]
-  exact parseIntStr_intStr _
+  exact parseIntAscii_intStr _
 
 theorem natDigits_all_lt (t : Nat) : (natDigits t).all (· < 128) = true := by
   simp only [List.all_eq_true, decide_eq_true_eq]
@@ -235,7 +237,7 @@ theorem prim_roundtrip {ty : FTy} {v : Val} {b : Bytes} (hw : wfPrim ty v = true
     simp only [tyToBytes, encodeAscii, intStr_all_lt' i, if_true] at he
     injection he with he; subst he
     refine ⟨intStr_no_soh i, ?_⟩
-    simp only [tyFromBytes, decodeAscii, intStr_all_lt' i, if_true, ok_bind, parseIntStr_intStr, pure_eq_ok]
+    simp only [tyFromBytes, decodeAscii, intStr_all_lt' i, if_true, ok_bind, parseIntAscii_intStr, pure_eq_ok]
   case float.flt t =>
     obtain ⟨ha, h1⟩ := wfText_iff hw
     simp only [tyToBytes, encodeAscii, ha, if_true] at he
@@ -540,7 +542,7 @@ theorem segLoop_step (tbl : Table) (fuel t : Nat) (tail : Bytes) (c : Nat) (acc 
   rw [natDigits_append_ne_nil]
   have e := findSub_one_append 61 (natDigits t) tail (natDigits_no t 61 (by decide))
   have h0 : (0 : Int) ≤ (t : Int) := by omega
-  simp only [Bool.false_eq_true, if_false, e, List.take_left', decodeAscii_natDigits, ok_bind, parseIntStr_natDigits,
+  simp only [Bool.false_eq_true, if_false, e, List.take_left', decodeAscii_natDigits, ok_bind, parseIntAscii_natDigits,
     h0, true_and, Int.toNat_natCast]
   by_cases hk : hasKey acc t = true
   · simp only [hk, if_true]
@@ -890,7 +892,7 @@ theorem decOK_group (t : Nat) (sub : List Entry) (r : Bool) (hnd : (deepTagsL su
         = .ok ((fieldBytes t (intStr (insts.length : Int))).length + 1, .int (insts.length : Int)) := by
       apply fieldFromBytes_field
       · exact intStr_no_soh _
-      · simp only [tyFromBytes, decodeAscii, intStr_all_lt', if_true, ok_bind, parseIntStr_intStr, pure_eq_ok]
+      · simp only [tyFromBytes, decodeAscii, intStr_all_lt', if_true, ok_bind, parseIntAscii_intStr, pure_eq_ok]
     have hb : joinSOH (fieldBytes t (intStr (insts.length : Int)) :: gs) ++ 1 :: rest
         = fieldBytes t (intStr (insts.length : Int)) ++ 1 :: (termAll gs ++ rest) := by
       have := joinSOH_term (fieldBytes t (intStr (insts.length : Int))) gs
